@@ -205,6 +205,13 @@ def check(ctx, run):
                                                                                       if any(True for _ in [0])) and ('Err', 'non-finite') not in got:
                 run.undecided(rule, b.path, f'number[{nv}]', 'finite floats go through from_f64 and no unwrap/expect is applied, but the path taken by a non-finite float was not recognised', loc)
                 continue
+            unread_num = any(isinstance(x_, str) and x_.startswith('?') for x_ in table.get('NUMBER_TAG', ()))
+            if not ok and got and got < want and unread_num:
+                # some path of the number arm returns a value built by combinators this rule does not read (`from_f64(v).map(..).ok_or(..)?`): the
+                # outcomes that were read are among the expected ones, the missing one may be that path
+                run.undecided(rule, b.path, f'number[{nv}]', f'outcomes read for {nv}: {sorted(got)} (expected {sorted(want)}); another path of the number arm builds its result with combinators '
+                              'this rule does not read: not decided', loc)
+                continue
             if not ok and not got:
                 # no outcome for this representation was recognised at all (the conversion is written with combinators / in a helper)
                 unwraps = any(called(callee_name_(t), 'Option::unwrap', 'Option::expect') for _, t in b.calls())
